@@ -19,7 +19,8 @@ PROP = dict(
                        "Comdex.C19.ext_share_visit_valid", "Comdex.C19.ext_cumulative_is_funding_minus_available",
                        "Comdex.C19.ext_epochs_le_duration", "Comdex.C19.ext_one_epoch_per_visit", "Comdex.C19.ext_not_due_twice",
                        "Comdex.C19.ext_available_nonneg_of_epoch_caps", "Comdex.C19.ext_accepted_programme_funded",
-                       "Comdex.C19.sf_epoch_pays_le_collected", "Comdex.C19.sf_gauge_leak_counterexample"],
+                       "Comdex.C19.sf_epoch_pays_le_collected", "Comdex.C19.sf_gauge_leak_counterexample",
+                       "Comdex.C19.epoch_clock_halt_realigns", "Comdex.C19.epoch_clock_no_burst"],
     harness_tests=["TestC19"],
     monitors=["split_sum", "zero_epochs", "epoch_cap", "cumulative_cap", "farmer_share", "farmer_share_1e12", "custody",
               "custody_ext_overpaid", "float_hyp", "ext_epoch_cap", "ext_epoch_bound", "ext_cumulative_cap", "ext_available_nonneg",
@@ -38,15 +39,26 @@ PROP = dict(
                   "functions (its correctness belongs to C06); the valuation (amount x TWA / decimals x 2), the SUM over child pools and "
                   "min(master, child sum) are computed by the model from per-(farmer, pool) amounts and prices, not taken from "
                   "GetAggregatedChildPoolContributions",
-                  "external reward programmes: only their ledger effect (tracker, sends, AvailableRewards) and the locker programme's "
-                  "share arithmetic are modelled; their clocks and eligibility rules are taken from the real run"],
+                  "external reward programmes (Model/ExtReward.lean, hand-written from x/rewards/keeper/iter.go:15-342 and keeper.go:122-340): "
+                  "locker, vault and lend distributions are modelled with eligibility (min lock-up, last day), per-user weights, the daily "
+                  "amount, the accumulation of addrArr / amountArr / totalAmount across the lend programmes of one block, EpochTime "
+                  "(StartingTime, Count), kill switch / ESM return; their inputs (lookup tables, positions, creation times, oracle "
+                  "records, farmed pool coins via CalculateXYFromPoolCoin) are printed by the harness from the keepers' getters before "
+                  "each begin blocker; the stable-mint-vault programme (DistributeExtRewardStableVault, CombinePSMUserPositions) is NOT "
+                  "modelled and never created by the harness",
+                  "swap-fee gauges: the outcome of TransferFundsForSwapFeeDistribution (error, or the amount that arrives) is an input "
+                  "obtained by running the real function on a throw-away branch of the state, gauge by gauge in the order of the begin "
+                  "blocker; the split of a pair's fees among its pools and the 150-block conversion belong to the liquidity module"],
     assumptions=["one denomination per ledger (the real module account is checked per denomination)",
-                 "swap-fee gauges (created by pools, not by MsgCreateGauge) are not modelled; they enter the custody sum with their "
-                 "whole deposit and hold nothing in the runs",
+                 "a change of the liquidity parameter SwapFeeDistrDenom while swap-fee gauges hold coins is not modelled (gauge.go:277-279, "
+                 "291-293) and not exercised",
                  "block times are such that Duration*2 does not overflow int64"],
     rule="a case is one line of a pure check (split / float / share computation on a real farmer population) or one generated gauge "
          "lifecycle (fresh app, 1-6 farmers in master and child pools, 1-5 gauges incl. malformed creations, optional external locker "
-         "programme, 8-60 blocks with gaps from 1 h to 200 h incl. skipped epochs, farm/unfarm/price changes/donations in between); "
+         "programme, 8-60 blocks with gaps from 1 h to 200 h incl. skipped epochs, farm/unfarm/price changes/donations in between), one "
+         "external-programme world (0-5 locker, 0-4 vault, 0-5 lend programmes mostly activated together, lockers / vaults / borrowers "
+         "that farm or not, 6-30 blocks incl. pauses, kill switch / ESM, price changes) or one swap-fee world (swaps with fees, "
+         "conversion blocks, ranged pool, oracle prices switched off); "
          "distinct = distinct trace text, non-trivial = at least one call returned normally",
 )
 
@@ -59,7 +71,12 @@ META = dict(
          "farmer's payout is at most (1+2^-53)(pro-rata + (value+1)/2 ulp), the module account covers all remainders; every accepted "
          "gauge has >= 1 epoch (zero-epoch gauges are refused since the repair) so the split clause applies to all of them. The "
          "literal 1e-12 clause and the external programmes' missing `paid <= available` guard are refuted by concrete "
-         "counterexamples replayed on the real code (known findings D21, D20).",
+         "counterexamples replayed on the real code (known findings D21, D20). External programmes: the three distributions are "
+         "modelled; proved for any number of programmes per block and any history: the exact per-epoch bounds (rounding excess for "
+         "locker / vault, (D/T)*sum(w) for lend), cumulative paid = funding - AvailableRewards, at most DurationDays epochs, "
+         "AvailableRewards >= 0 under the literal epoch cap; the literal caps are refuted for lend programmes by two new findings "
+         "(D35 value paid as amount, D36 truncated total). Swap-fee gauges are in the custody theorem; D37: a failed fee transfer "
+         "after a paid distribution makes the gauge pay its deposit again every epoch.",
     note="Trusted: Lean kernel, the hand-written model as far as the correspondence run exercises it, Base/Dec, Go's ParseFloat being "
-         "correctly rounded (tested bit-for-bit). Open findings: D20 custody_ext_overpaid, D21 farmer_share_1e12; zero_epochs repaired in the repository (regression witness kept).",
+         "correctly rounded (tested bit-for-bit). Open findings: D20 custody_ext_overpaid, D21 farmer_share_1e12, D35 ext_lend_value_as_amount, D36 ext_lend_truncated_total, D37 sf_leak; zero_epochs repaired in the repository (regression witness kept).",
 )
